@@ -40,7 +40,7 @@ theorem SClaim.actor0 {s s' : State} {e : Event} (hS : InvS s)
   all_goals (try subst ha)
   all_goals (try (rw [‹s.pc _ = _›] at hc))
   all_goals (try (simp only [setPc_pc, upd_same, afterDeadline_pc, afterNotify_pc, childReturn_pc,
-    childWakeNext_pc, freeLoopStart_pc, enterChild_pc, leave_pc, addUser_pc, markCalled_pc,
+    childWakeNext_pc, childScanStart_pc, acquire_f_children, freeLoopStart_pc, enterChild_pc, leave_pc, addUser_pc, markCalled_pc,
     markFreeing_pc, setAfter_pc, pushObs_pc, publish_pc, delUser_pc]))
   all_goals (try (left; simp [SClaim, DKS]; done))
   all_goals (try (left; simp_all [SClaim, NKS]; done))
@@ -48,6 +48,7 @@ theorem SClaim.actor0 {s s' : State} {e : Event} (hS : InvS s)
   all_goals (try (left; exact SClaim.afterNotifyPc hS hc.1))
   all_goals (try (left; exact SClaim.childReturnPc hc))
   all_goals (try (left; exact SClaim.childWakeNextPc hS hc (by simp)))
+  all_goals (try (left; exact SClaim.childLoopStartPc hS hc))
   all_goals (try (left; exact SClaim.freeLoopStartPc hS (by simpa using hc.1)))
   -- free: children list of a state that differs by lock/disconnecting only
   all_goals (try (left; exact SClaim.freeLoopStartPc' hS (by simp) hc.1))
